@@ -216,6 +216,18 @@ class Conv:
                     raise Unsupported("test.op without tag / with results")
                 out.append(["e", int(tag.data[1:]), [self.arg(o) for o in op.operands]])
                 continue
+            if unregistered(op):
+                # nothing is known about an op of an unregistered dialect: it is an observable event (never pure, never dead);
+                # a result is an uninterpreted function of the operands, defined right after the event
+                eid = unreg_tag(op)
+                if eid is None:
+                    raise Unsupported("unregistered op without tag / with several results / with regions")
+                args = [self.arg(o) for o in op.operands]
+                out.append(["e", eid, args])
+                if op.results:
+                    fa = op.attributes.get("f")
+                    out.append(["p", self.names[op.results[0]], ["opaque", fa.value.data if isinstance(fa, IntegerAttr) else 0], args])
+                continue
             if len(op.results) != 1:
                 raise Unsupported(f"op {op.name}")
             dst = self.names[op.results[0]]
@@ -276,6 +288,27 @@ def convert(text):
     return mod, f, Conv(f)
 
 
+def unregistered(op):
+    from xdsl.dialects.builtin import UnregisteredOp
+    return isinstance(op, UnregisteredOp)
+
+
+def unreg_tag(op):
+    """event id of an op of an unregistered dialect: attribute tag = "uN" -> 1000 + N"""
+    from xdsl.dialects.builtin import StringAttr
+    tag = op.attributes.get("tag")
+    if not isinstance(tag, StringAttr) or not tag.data.startswith("u") or len(op.results) > 1 or op.regions:
+        return None
+    return 1000 + int(tag.data[1:])
+
+
+def width(op):
+    """number of model statements an op becomes (an unregistered op with a result = its event + the value it defines)"""
+    if dropped(op):
+        return 0
+    return 2 if unregistered(op) and len(op.results) == 1 else 1
+
+
 def model_path(mod, real_path):
     """real position [(region, block, index)…] -> (indices in the model's blocks, target op was dropped?)"""
     op = mod
@@ -284,7 +317,7 @@ def model_path(mod, real_path):
         blk = op.regions[r].blocks[b]
         ops = list(blk.ops)
         if k > 0:
-            out.append(sum(1 for o in ops[:i] if not dropped(o)))
+            out.append(sum(width(o) for o in ops[:i]))
         op = ops[i]
     return out, dropped(op), op
 
@@ -387,6 +420,18 @@ def run_func(f, env_args):
                 tr.append((tag.data, tuple(get(o) for o in op.operands)))
                 if len(tr) > MAX_EVENTS:
                     raise Invalid("trace too long")
+            elif unregistered(op):
+                eid = unreg_tag(op)
+                if eid is None:
+                    raise Invalid("unregistered op without tag")
+                vals = [get(o) for o in op.operands]
+                tr.append((f"t{eid}", tuple(vals)))
+                if len(tr) > MAX_EVENTS:
+                    raise Invalid("trace too long")
+                if op.results:
+                    fa = op.attributes.get("f")
+                    fv = fa.value.data if isinstance(fa, IntegerAttr) else 0
+                    env[op.results[0]] = fv + sum((k + 1) * (v if isinstance(v, int) else 0) for k, v in enumerate(vals))
             elif isinstance(op, scf.ForOp):
                 lb, ub, st = get(op.lb), get(op.ub), get(op.step)
                 if st <= 0:
@@ -527,6 +572,10 @@ class GenCanon:
     def testop(self, ind, vals):
         k = self.r.randint(0, min(3, len(vals)))
         ops = self.r.sample(vals, k) if k else []
+        if self.r.random() < 0.12:   # an op of an unregistered dialect: unknown effects, observable
+            self.utags = getattr(self, "utags", 0) + 1
+            name = self.r.choice(["accel.launch", "accel.await", "foo.bar", "foo.get"])
+            return f'{ind}"{name}"({", ".join(ops)}) {{tag = "u{self.utags}"}} : ({", ".join([IDX] * len(ops))}) -> ()'
         return f'{ind}"test.op"({", ".join(ops)}) {{tag = "{self.tag()}"}} : ({", ".join([IDX] * len(ops))}) -> ()'
 
     def pureop(self, ind, vals, out):
@@ -660,13 +709,14 @@ def rank_of(ty):
 class GenReuse:
     """loop nests with allocations, memref.dim, subviews and affine.min for reuse-memref-allocs"""
 
-    def __init__(self, r, minfirst_nonconst=False, chain_bias=0.12, multi_bias=0.1):
+    def __init__(self, r, minfirst_nonconst=False, chain_bias=0.12, multi_bias=0.1, unreg_bias=0.08):
         self.r = r
         self.n = 0
         self.tags = 0
         self.bad_min = minfirst_nonconst
         self.chain_bias = chain_bias
         self.multi_bias = multi_bias
+        self.unreg_bias = unreg_bias
 
     def fresh(self, p="v"):
         self.n += 1
@@ -683,8 +733,31 @@ class GenReuse:
             c = [v for v in vals if v[1] == IDX]
         return self.r.choice(c)[0]
 
+    def unreg(self, ind, vals, out):
+        """an op of an unregistered dialect (`--allow-unregistered-dialect`): nothing is known about its effects"""
+        r = self.r
+        self.utags = getattr(self, "utags", 0) + 1
+        how = r.choice(["none", "none", "outer", "outer", "outer", "any"])
+        if how == "none":
+            ops = []
+        elif how == "outer":   # results of ops defined outside every loop (top-level constants)
+            ops = r.sample(["%c0", "%c1", "%c2", "%c3", "%c4"], r.randint(1, 2))
+        else:
+            ops = [self.pick_idx(vals, prefer=r.choice([["iv"], ["arith"], ["const"], None])) for _ in range(r.randint(1, 2))]
+        tys = ", ".join([IDX] * len(ops))
+        if r.random() < 0.35:
+            v = self.fresh("u")
+            name = r.choice(["accel.cfg", "foo.get", "foo.pure_looking"])
+            out.append(f'{ind}{v} = "{name}"({", ".join(ops)}) {{tag = "u{self.utags}", f = {r.randint(0, 9)} : i64}} : ({tys}) -> index')
+            vals.append((v, IDX, "arith"))
+        else:
+            name = r.choice(["accel.launch", "accel.await", "foo.bar"])
+            out.append(f'{ind}"{name}"({", ".join(ops)}) {{tag = "u{self.utags}"}} : ({tys}) -> ()')
+
     def item(self, ind, vals, out, depth):
         r = self.r
+        if r.random() < self.unreg_bias:
+            return self.unreg(ind, vals, out)
         k = r.choice(["const", "arith", "arith", "dim", "dim", "dim", "min", "subview", "subview", "alloc", "alloc", "test",
                       "test", "pure"])
         mems = [v for v in vals if v[1] != IDX]
@@ -1064,8 +1137,11 @@ class C17(Prop):
                     g = GenReuse(r, multi_bias=0.5)
                     yield {"kind": "reuse-multidim", "pass": REUSE, "src": g.prog(), "envs": g.envs()}
             else:
-                sp = r.choice(["neg", "step0", "iter", "badmin", "odd"])
-                if sp == "badmin":
+                sp = r.choice(["neg", "step0", "iter", "badmin", "odd", "unreg", "unreg"])
+                if sp == "unreg":
+                    g = GenReuse(r, unreg_bias=0.4)
+                    yield {"kind": "reuse-unreg", "pass": REUSE, "src": g.prog(), "envs": g.envs()}
+                elif sp == "badmin":
                     g = GenReuse(r, minfirst_nonconst=True)
                     yield {"kind": "reuse-badmin", "pass": REUSE, "src": g.prog(), "envs": g.envs()}
                 else:
@@ -1267,8 +1343,12 @@ class C17(Prop):
         if "unsupported" in impl_out:   # iter_args etc.: not modelled, still executed
             flags["imperfect"] = flags.get("imperfect", False) or "iter_args" in case["src"]
 
+        # DC17b = a step that violates the clause NoExistingDimMove on the real IR AND introduced a use before its definition
+        dc17b = any(s.get("flags", {}).get("existing_in_loop") and s.get("flags", {}).get("existing_moved")
+                    for s in impl_out.get("steps", []))
+
         def attribute(undefined=False):
-            if undefined and flags.get("existing_moved"):
+            if undefined and dc17b:
                 return "DC17b"
             if flags.get("imperfect"):
                 return "D18"
@@ -1318,7 +1398,7 @@ class C17(Prop):
     def shrink(self, case):
         lines = case["src"].split("\n")
         for i, l in enumerate(lines):
-            if "test.op" in l or (" = " in l and "scf.for" not in l and "%c" not in l.split("=")[0]):
+            if "test.op" in l or '{tag = "u' in l or (" = " in l and "scf.for" not in l and "%c" not in l.split("=")[0]):
                 yield dict(case, src="\n".join(lines[:i] + lines[i + 1:]))
         if len(case["envs"]) > 1:
             for e in case["envs"]:
